@@ -73,10 +73,11 @@ func VP_C16_uniforms() {
 	var name []byte
 	var want []rune
 	// first component: either form with symbolic digits (alphabet: any byte that is not a
-	// separator and not a lower-case letter, so that the component is not a glyph-list name)
+	// separator and not a letter g-z: no glyph-list name has the shape u/uni + such characters,
+	// lower-case hexadecimal digits included, so the component is not a glyph-list name)
 	digit := func(tag string) byte {
 		c := vpByte(tag)
-		vpAssume(c != '.' && c != '_' && !(c >= 'a' && c <= 'z'))
+		vpAssume(c != '.' && c != '_' && !(c >= 'g' && c <= 'z'))
 		return c
 	}
 	switch vpChoose("form", 2) {
@@ -135,6 +136,58 @@ func VP_C16_uniforms() {
 	}
 	got := ToUnicode(string(name), false)
 	vpAssert("uni-forms-as-specified", vpSameRunes(got, want))
+	vpCover("done")
+}
+
+// K2b: underscore composites of two uni-form components with symbolic digits: the text is the
+// concatenation of the components' texts, and a malformed component contributes nothing -
+// whatever part of it looked well-formed before the offending character.
+func VP_C16_composite() {
+	vpUnwind(600)
+	var name []byte
+	var want []rune
+	digit := func(tag string) byte {
+		c := vpByte(tag)
+		vpAssume(c != '.' && c != '_' && c < 0x80 && !(c >= 'g' && c <= 'z'))
+		return c
+	}
+	comp := func(tag string, groups int) {
+		name = append(name, 'u', 'n', 'i')
+		good := true
+		var vals []rune
+		for g := 0; g < groups; g++ {
+			var v rune
+			for i := 0; i < 4; i++ {
+				c := digit(tag + string(rune('0'+4*g+i)))
+				name = append(name, c)
+				h, ok := vpUpperHex(c)
+				if !ok {
+					good = false
+				}
+				v = v*16 + h
+			}
+			if v >= 0xD800 && v <= 0xDFFF {
+				good = false
+			}
+			vals = append(vals, v)
+		}
+		if good {
+			want = append(want, vals...)
+		}
+	}
+	comp("a", 1+vpChoose("groupsA", vpParam("GROUPS_A", 2)))
+	name = append(name, '_')
+	if vpParam("B_SYMBOLIC", 1) == 1 {
+		comp("b", 1)
+	} else {
+		name = append(name, []byte("uni0042")...)
+		want = append(want, 'B')
+	}
+	if vpChoose("suffix", 2) == 1 {
+		name = append(name, []byte(".alt")...)
+	}
+	got := ToUnicode(string(name), false)
+	vpAssert("composite-is-concatenation-of-components", vpSameRunes(got, want))
 	vpCover("done")
 }
 
